@@ -742,7 +742,8 @@ def lines_stream(ctx, repl=""):
     match (several lines, each with a match), in all three APIs alike.  Own generator state."""
     rng_l = random.Random(ctx.seed * 32452843 + 4)
     out = []
-    line_pats = ["^-", "^a", "^a+", "^(?:a|b)", "^[ab]", "^a|^b", "^.", "^ab?", "^(a)(b)?", "^a+?b", "^\\w+", "^[^a\n]", "^b", "^bb?$"]
+    line_pats = ["^-", "^a", "^a+", "^(?:a|b)", "^[ab]", "^a|^b", "^.", "^ab?", "^(a)(b)?", "^a+?b", "^\\w+", "^[^a\n]", "^b", "^bb?$",
+                 "^(?:(a)|(b))", "^(?:(a)|(b)|c)", "^(a)?(b)?-"]
     line_inps = ["-a\n-b\n-c", "a\na\na", "ab\nba\nab", "\na\n\nb", "a", "b\na", "aa\r\naa\naa", "ab\nab", "a\n", "\n\na\nab\n-",
                  "a\nbb\nc", "x\n\nb\nbb\nab\nb"]
     for p_ in line_pats:
@@ -1247,6 +1248,12 @@ def grammar_stream(ctx, dialects):
             p_ = "(" + inner + ")" + ref
         for d in dialects:
             tuples.append((d, "", p_, "", "", "backref-digits"))
+    # a counted quantifier ends with '}' and nothing else
+    for body in ("a{1,2", "a{1,", "a{1", "a{12,3", "(a{1,2", "ab{2,3", "a{,2", "a{1,2,3"):
+        for close in (")", "]", "|", "}", "x", ",", "{", "?", ")}", "})", ""):
+            for tail in ("", "c", ")"):
+                for d in dialects:
+                    tuples.append((d, "", body + close + tail, "", "", "brace-endings"))
     # block names are matched as written (only under flag x is white space removed first): spaces,
     # underscores, hyphens and case variants of a real block name are not names
     for nm in ["BasicLatin", "Basic_Latin", "Basic Latin", "_BasicLatin", "BasicLatin_", "Basic-Latin", "basiclatin", "BASICLATIN", "Cyrillic",
@@ -2380,6 +2387,7 @@ def slice_C18(ctx):
              # characters whose low 16 bits are the same
              ("xpath", "", "x[A-Z]", "xA\U00010041\U00020041Z"), ("xpath", "", "-[0-9]+", "-17\U00010037\U00010031a"),
              # patterns whose parentheses stand at the same offsets but nest differently or mean something else
+             ("xpath", "", "(a|b)\\1", "ab"), ("xpath", "", "(x|y)\\1", "xy1"), ("xpath", "", "^(a|b|c)\\1$", "abc"),
              ("xpath", "", "(?:a(b?))", "ab"), ("xpath", "", "(aaa(b?))", "ab"), ("xpath", "", "(xy)(z\\))", "xyz)"), ("xpath", "", "(a\\)(b?))", "a)b")]
     ops, expect_cases = [], []
     handles = 0
